@@ -456,16 +456,37 @@ def adduct_homogeneity(ctx, rep, clause):
             t = t.replace(k, v)
         return re.sub(r'\$\d+|\bvar\d+\b', '<mass>', t)
     seen = set()
+    returned = {r.value.id for r in walk_own(f.node) if isinstance(r, ast.Return) and isinstance(r.value, ast.Name)}
+
+    def summands(e):
+        if isinstance(e, ast.BinOp) and isinstance(e.op, (ast.Add, ast.Sub)):
+            return summands(e.left) + summands(e.right)
+        if isinstance(e, ast.IfExp):
+            return summands(e.body) + summands(e.orelse)
+        return [e]
+    terms = []       # (statement the term is spelled by, expression that must carry the count)
     for n in walk_own(f.node):
         if isinstance(n, ast.AugAssign) and isinstance(n.target, ast.Name) and isinstance(n.op, (ast.Add, ast.Sub)):
-            txt = spell(n)
-            if txt in seen:
-                continue
-            seen.add(txt)
-            ob(rep, 'AFF-degree', fq, f'term `{txt}` is proportional to the ion count', '<count>' in spell(n.value),
-                  'carries the factor <count>',
-                  f'the term does not carry the ion count (first component of parse_ion_elements): for counts other '
-                  f'than 1 the adduct mass is not count x (mass of one ion)', f.loc(n), clause)
+            terms.append((n, n.value))
+        elif isinstance(n, ast.Assign) and len(n.targets) == 1 and isinstance(n.targets[0], ast.Name) and \
+                n.targets[0].id in returned and not isinstance(n.value, ast.Constant) and \
+                not any(isinstance(y, ast.Name) and y.id in returned for y in ast.walk(n.value)):
+            # the total started from its first term (`m = count * mass`) instead of from zero
+            for e in summands(n.value):
+                terms.append((n if len(summands(n.value)) == 1 else e, e))
+        elif isinstance(n, ast.Return) and n.value is not None and not isinstance(n.value, (ast.Name, ast.Constant)) and \
+                not any(isinstance(y, ast.Name) and y.id in returned for y in ast.walk(n.value)):
+            for e in summands(n.value):
+                terms.append((n if len(summands(n.value)) == 1 else e, e))
+    for n, val in terms:
+        txt = spell(n)
+        if txt in seen:
+            continue
+        seen.add(txt)
+        ob(rep, 'AFF-degree', fq, f'term `{txt}` is proportional to the ion count', '<count>' in spell(val),
+              'carries the factor <count>',
+              f'the term does not carry the ion count (first component of parse_ion_elements): for counts other '
+              f'than 1 the adduct mass is not count x (mass of one ion)', f.loc(n), clause)
     rep.floor('AFF-degree', 'distinct additive terms in _parse_adduct_mass', len(seen), 3)
 
 
